@@ -219,6 +219,12 @@ def run_property(prop, tier, seed, jobs, only=None):
         json.dump(ev, f, indent=1, default=str)
     print('%s tier=%s: %d contracts, %d paths, %d/%d obligations discharged %s, concolic %s, bounded evaluations %d, %.1fs'
           % (prop, tier, len(results), paths, n_dis, n_obl, by_solver, concolic, b_eval, wall))
+    if os.environ.get('VERIF_DEBUG'):
+        for r in results:
+            print('  [%s] paths=%s explore=%ss wall=%ss obligations=%d concolic=%s' % (
+                r['contract'], r.get('paths'), r.get('explore_s'), r.get('wall_s'), len(r['obligations']), r.get('concolic')))
+        for b in bounded:
+            print('  [bounded %s] %s evaluations, %ss' % (b.get('name'), b.get('evaluations'), b.get('wall_s')))
     for ln in lines:
         print(ln)
     print('exit %d' % exit_code)
@@ -227,12 +233,12 @@ def run_property(prop, tier, seed, jobs, only=None):
 
 def replay_known(k, reg, mods):
     """True if the listed witness still fails natively."""
-    if k.get('stage'):
+    if not k.get('sites'):
         for m in mods:
             for st in getattr(m, 'BOUNDED', []) + getattr(m, 'TABLES', []):
-                if st.name == k['stage']:
+                if st.name == k['stages'][0]:
                     return st.witness_fails(k)
-        raise KeyError(k['stage'])
+        raise KeyError(k['stages'])
     site = k['sites'][0]
     con = next(c for c in reg if c.name == site['contract'])
     cargs = codec.dec(k['witness'])
